@@ -17,3 +17,6 @@ open Rpylib.Params
 #print axioms calibrate_alias_mutates
 #print axioms containsInterval_sound
 #print axioms rowOk_sound
+#print axioms calibrate_reprices_target
+#print axioms leftEndFinder_contract
+#print axioms calibrate_cfg_mismatch_witness
